@@ -138,7 +138,8 @@ Fixpoint triples (bs : list Z) : list Z :=
 Definition all_false (m : list bool) : bool := forallb negb m.
 
 (* CFListChannelMaskPayload.UnmarshalBinary: masks are appended only up to the
-   last one that is not all-zero *)
+   last one that is not all-zero; the caller passes at most 12 bytes (six masks),
+   payload.go after fix e2c2b92 *)
 Fixpoint masks_from (bs : list Z) (pending : list (list bool)) : list (list bool) :=
   match bs with
   | a :: b :: r =>
@@ -151,7 +152,8 @@ Fixpoint masks_from (bs : list Z) (pending : list (list bool)) : list (list bool
 Definition cflist_unmarshal (bs : list Z) : outcome cflist :=
   if negb (length bs =? 16)%nat then Err
   else let body := firstn 15 bs in
-       if nth 15 bs 0 =? 1 then Ok (CFMasks (masks_from body []))
+       (* six channel-masks, then RFU: bytes 12..14 are ignored (fix e2c2b92, finding C06-2) *)
+       if nth 15 bs 0 =? 1 then Ok (CFMasks (masks_from (firstn 12 body) []))
        else Ok (CFChannels (triples body)).
 
 (* masks without trailing all-zero entries: what a ChannelMask CFList keeps *)
